@@ -19,10 +19,11 @@ from harness import tracecheck
 
 
 def _run(args):
-    seed, rid, nsteps = args
+    seed, rid, nsteps = args[:3]
+    limit = args[3] if len(args) > 3 else 1
     from harness import ipreq_driver as D
     rng = random.Random(seed)
-    r = D.random_run(rng, rid, nsteps=nsteps)
+    r = D.random_run(rng, rid, nsteps=nsteps, limit=limit)
     try:
         rec = r.record(rid)
         rec["loop_exceptions"] = [e for e in r.loop_exceptions if "pop from empty list" not in e][:5]
@@ -42,6 +43,8 @@ def run(ctx):
                "requests are issued on an established or fully lost connection, not in the middle of pair-verify")
     ctx.tlc("ip/IpReq", "IpReq_MCq.cfg" if not ctx.thorough else "IpReq_MC.cfg",
             label="exhaustive request plane", timeout=1800, coverage=not ctx.thorough, require_cover=not ctx.thorough)
+    ctx.tlc("ip/IpReq", "IpReq_MCq_L2.cfg", label="exhaustive request plane, semaphore capacity 2 (plain connection class)",
+            timeout=1800, coverage=False, require_cover=False)
     ctx.tlc("ip/IpReq", "IpReq_Live.cfg", label="liveness NoHang under fairness", timeout=900, coverage=False, require_cover=False)
     n = ctx.pick(400, 6000)
     jobs = [(ctx.seed * 1000003 + i, f"req{i}", [20, 30, 45][i % 3]) for i in range(n)]
@@ -60,6 +63,20 @@ def run(ctx):
         ctx.violation(what, {"kind": "trace", "record": j.get("record"), "first_unexplained": j.get("event"),
                              "position": j.get("maxl"), "last_matched_state": j.get("last_state")})
     ctx.sample({"recorded_trace_prefix": recs[0]["events"][:30]})
+    # the plain connection class with concurrency_limit = 2: several requests outstanding on one socket
+    n2 = ctx.pick(250, 3000)
+    jobs2 = [(ctx.seed * 999983 + i, f"lim{i}", [20, 30, 45][i % 3], 2) for i in range(n2)]
+    with mp.get_context("fork").Pool(min(16, os.cpu_count() or 4)) as pool:
+        recs2 = pool.map(_run, jobs2, chunksize=16)
+    for r in recs2:
+        ctx.case(json.dumps(r["events"], sort_keys=True) if any(e["ev"] == "acc_rx" for e in r["events"]) else None)
+    rej = tracecheck.validate(ctx, "ip/IpReq_Trace", "IpReq_Trace_L2.cfg", recs2, label=f"trace validation, capacity 2 ({len(recs2)} executions)")
+    for j in rej:
+        what = (f"execution {j['record']['id'] if j.get('record') else '?'} (semaphore capacity 2) is not a behaviour of IpReq: "
+                + (f"invariant {j['invariant']} violated" if j.get("invariant") else
+                   f"event #{j['maxl']} {j['event']} cannot be explained"))
+        ctx.violation(what, {"kind": "trace", "record": j.get("record"), "first_unexplained": j.get("event"),
+                             "position": j.get("maxl"), "last_matched_state": j.get("last_state")})
 
 
 def _replay(ctx):
